@@ -11,12 +11,16 @@
 (*   mode "full"     the whole history (short streams, any view)           *)
 (*   mode "window"   the last K(view, N) inputs (windowed views)           *)
 (*   mode "rolling"  exact running sums / peak (whole-history views)       *)
+(*   mode "machine"  the state of the implementation-shaped machine        *)
+(*                   (Machines.tla, model-checked against the definitions  *)
+(*                   on small scopes by MC_Model): long streams at large   *)
+(*                   N for the recursive views                             *)
 (* so a 10^6-step stream costs the window per event, not the history.      *)
 (* C13 (rolling statistics on long streams) and C16 (f64 / f32 answers     *)
 (* track the exact ones within eps x natural scale; flat-after-volatile)    *)
 (* are decided here.                                                       *)
 (***************************************************************************)
-EXTENDS Tree, Tally, Json, IOUtils, TLC
+EXTENDS Machines, Ranges, Tally, Json, IOUtils, TLC
 
 Rec  == ndJsonDeserialize(IOEnv.TRACE)
 Prop == IOEnv.PROP
@@ -28,10 +32,12 @@ VARIABLES l,        \* next line to consume
           cnt,      \* inputs consumed in this stream
           maxabs,   \* largest |input| of this stream (in units of 1/unit)
           cur, prv, \* the answer on the line just consumed, and the one before
+          mst,      \* ghost: machine state (mode "machine")
+          pos,      \* ghost: all inputs of this stream so far were positive
           aux,      \* ghost: data that depends on the configuration only (Alma kernel weights), evaluated once per stream
           gap,      \* number of inputs consumed by the last line (answers in between were not recorded if > 1)
           sid       \* stream number
-vars == <<l, hd, win, agg, cnt, maxabs, cur, prv, aux, gap, sid>>
+vars == <<l, hd, win, agg, cnt, maxabs, cur, prv, mst, pos, aux, gap, sid>>
 
 KMem(cfg, mode) == IF mode # "window" THEN 1000000000
                    ELSE IF cfg.k \in {"Rsi", "MyRSI", "Roc"} THEN cfg.n + 1 ELSE cfg.n
@@ -50,8 +56,11 @@ AggFold(a, xs, i) ==
              dd == IF pk[1] = 0 THEN QZero ELSE <<WSub(pk, x), pk>>
          IN  AggFold(<<a[1] + 1, WAdd(a[2], x), WAdd(a[3], WMul(x, x)), pk, QMax(a[5], dd), a[7], xs[i]>>, xs, i + 1)
 
+RECURSIVE MFold(_, _, _, _)
+MFold(cfg, m, xs, i) == IF i > Len(xs) THEN m ELSE MFold(cfg, TM_Step(cfg, m, QFrac(xs[i], hd.unit)), xs, i + 1)
+
 Init == /\ l = 1 /\ hd = <<>> /\ win = <<>> /\ agg = AggInit /\ cnt = 0 /\ maxabs = 0
-        /\ cur = <<"n">> /\ prv = <<"n">> /\ aux = <<>> /\ gap = 0 /\ sid = 0
+        /\ cur = <<"n">> /\ prv = <<"n">> /\ aux = <<>> /\ mst = <<>> /\ pos = TRUE /\ gap = 0 /\ sid = 0
 
 IsHeader(e) == "cfg" \in DOMAIN e
 Next == /\ l <= Len(Rec)
@@ -60,17 +69,21 @@ Next == /\ l <= Len(Rec)
            IF IsHeader(e)
            THEN /\ hd' = e /\ win' = <<>> /\ agg' = AggInit /\ cnt' = 0 /\ maxabs' = 0
                 /\ cur' = <<"n">> /\ prv' = <<"n">> /\ gap' = 0 /\ sid' = sid + 1
+                /\ mst' = IF e.mode = "machine" THEN TM_Init(e.cfg) ELSE <<>>
+                /\ pos' = TRUE
                 /\ aux' = IF e.cfg.k = "Alma" /\ e.mode = "window" THEN AlmaWeights(e.cfg.n, SigmaOf(e.cfg), OffsetOf(e.cfg)) ELSE <<>>
            ELSE /\ win' = LastK(win \o e.xs, KMem(hd.cfg, hd.mode))
                 /\ agg' = IF hd.mode = "rolling" THEN AggFold(agg, e.xs, 1) ELSE agg
                 /\ cnt' = cnt + Len(e.xs)
                 /\ maxabs' = MaxAbsSeq(e.xs, 1, maxabs)
                 /\ cur' = e.o /\ prv' = cur /\ gap' = Len(e.xs)
+                /\ mst' = IF hd.mode = "machine" THEN MFold(hd.cfg, mst, e.xs, 1) ELSE mst
+                /\ pos' = (pos /\ \A i \in 1..Len(e.xs) : e.xs[i] > 0)
                 /\ UNCHANGED <<hd, sid, aux>>
 
 -----------------------------------------------------------------------------
 U == hd.unit
-XQ(w) == [i \in 1..Len(w) |-> QFrac(w[i], U)]
+XQ(w) == Force([i \in 1..Len(w) |-> QFrac(w[i], U)])
 
 RollingDef(cfg) ==
     LET n == agg[1] IN
@@ -90,6 +103,8 @@ WindowDef(cfg, w) ==
 Expected == CASE hd.mode = "full"    -> TreeDef(hd.cfg, XQ(win))
               [] hd.mode = "window"  -> WindowDef(hd.cfg, XQ(win))
               [] hd.mode = "rolling" -> RollingDef(hd.cfg)
+              [] hd.mode = "machine" -> LET mo == TM_Out(hd.cfg, mst) IN IF mo = MUndef THEN RAny ELSE mo
+              [] hd.mode = "range"   -> RAny
 
 (* natural scale of an output: width of the range for bounded indicators, largest input magnitude otherwise *)
 Scale(cfg, want) ==
@@ -117,11 +132,17 @@ Report(clause) == /\ Tally("viol")
                   /\ \/ ~TallyUpTo("print." \o ToString(sid), 5)
                      \/ PrintT(<<"VIOL", Prop, clause, sid, l - 1, cnt>>)
 
+(* C07 on recorded streams: the range predicate of Ranges.tla on every recorded answer *)
+RangeVerdict == \/ ~OIsSome(cur)
+                \/ (Tally("range." \o hd.cfg.k) /\ RangeOf(hd.cfg, cur, IF gap = 1 THEN prv ELSE <<"n">>, pos))
+                \/ Report("range")
+
 Verdict == \/ hd = <<>> \/ cnt = 0
-           \/ LET r == Expected IN
-              /\ Tally("events")
-              /\ Tally("def." \o r[1])
-              /\ (Within(cur, r) \/ Report("tracks-exact"))
+           \/ /\ Tally("events")
+              /\ IF hd.mode = "range" THEN RangeVerdict
+                 ELSE LET r == Expected IN
+                      /\ Tally("def." \o r[1])
+                      /\ (Within(cur, r) \/ Report("tracks-exact"))
 
 Post == /\ TallyDump(TLCGet("stats").generated)
         /\ TLCGet("stats").diameter = Len(Rec) + 1
